@@ -159,7 +159,7 @@ def twist_cases(ctx):
     tier, seed = ctx.tier, ctx.seed
     wmag = [('0', 0.0), ('1e-17', 1e-17), ('1e-15', 1e-15), ('3e-15', 3e-15), ('1e-12', 1e-12), ('1e-6', 1e-6), ('1', 1.0), ('1e6', 1e6)]
     vmag = [('0', 0.0), ('1e-6', 1e-6), ('1', 1.0), ('1e6', 1e6)] if tier == 'quick' else [('0', 0.0)] + alph.magnitudes(tier)
-    wd = [('e3', np.array([0, 0, 1.0])), ('g', alph.unit((1, 2, 3)))]
+    wd = [('e3', np.array([0, 0, 1.0])), ('g', alph.unit((1, 2, 3))), ('-e3', np.array([0, 0, -1.0]))]      # -e3: clockwise in the plane
     vd = [('e1', np.array([1.0, 0, 0])), ('g', alph.unit((-2, 1, 0.5)))]
     ZERO = 10 * np.finfo(float).eps
     for (wn, wm), (vn, vm), (wdn, wdir), (vdn, vdir) in itertools.product(wmag, vmag, wd, vd):
@@ -170,9 +170,9 @@ def twist_cases(ctx):
                 S = np.r_[vm * vdir, wm * wdir]
                 entries = [('base.unittwist', lambda x: b.unittwist(x)), ('base.unittwist_norm', lambda x: b.unittwist_norm(x)[0]), ('Twist3.unit', lambda x: sm.Twist3(x).unit.S)]
             else:
-                if wdn != 'e3':
+                if wdn not in ('e3', '-e3'):
                     continue
-                S = np.r_[vm * vdir[:2] / np.linalg.norm(vdir[:2]), wm]
+                S = np.r_[vm * vdir[:2] / np.linalg.norm(vdir[:2]), wm * wdir[2]]
                 entries = [('base.unittwist2', lambda x: b.unittwist2(x)), ('base.unittwist2_norm', lambda x: b.unittwist2_norm(x)[0]), ('Twist2.unit', lambda x: sm.Twist2(x).unit.S)]
             w = S[dim:] if dim == 3 else S[2:]
             v = S[:dim]
@@ -416,9 +416,46 @@ def angdiff_forms(ctx):
             ctx.fail(cid, 'base.angdiff', 'mismatch', P, 'result for the (%s, %s) forms differs from the element-wise scalar results' % (fa, fb))
 
 
+def element_types(ctx):
+    """the value held in an array of another element type (single / half precision, integers) or a list of NumPy scalars: the same real
+    numbers, so the same normalised value to 1e-12 (differential against the float64 copy of the same numbers)"""
+    import spatialmath as sm
+    import spatialmath.base as b
+    v3 = np.array([1.5, -2.0, 0.25])
+    q4 = np.array([0.5, -1.5, 2.0, 0.75])
+    s6 = np.array([1.0, 2.0, -0.5, 0.25, -0.5, 0.75])
+    p6 = np.array([1.0, 2.0, -0.5, 0.0, 0.0, 0.0])
+    s3 = np.array([1.5, -2.0, -0.5])
+    conv = {'float32': lambda x: x.astype(np.float32), 'float16': lambda x: x.astype(np.float16), 'int64': lambda x: (4 * x).astype(np.int64),
+            'list-f32': lambda x: [np.float32(e) for e in x], 'list-int': lambda x: [int(4 * e) for e in x]}
+    fns = [('base.unitvec', b.unitvec, v3), ('base.unitvec_norm', lambda x: b.unitvec_norm(x)[0], v3), ('base.unit', b.unit, q4), ('base.unittwist', b.unittwist, s6),
+           ('base.unittwist', b.unittwist, p6), ('base.unittwist_norm', lambda x: b.unittwist_norm(x)[0], s6), ('base.unittwist2', b.unittwist2, s3),
+           ('base.unittwist2_norm', lambda x: b.unittwist2_norm(x)[0], s3), ('Quaternion.unit', lambda x: sm.Quaternion(x).unit().vec, q4),
+           ('UnitQuaternion(array)', lambda x: sm.UnitQuaternion(x).vec, q4), ('Twist3.unit', lambda x: sm.Twist3(x).unit.S, s6), ('Twist2.unit', lambda x: sm.Twist2(x).unit.S, s3)]
+    for (site, f, x), (tn, cv), mag in itertools.product(fns, conv.items(), (1.0, 1024.0, 1.0 / 1024)):
+        if 'int' in tn and mag < 1:
+            continue
+        cid = 'C14/etype/%s/%s/%g/%d' % (site, tn, mag, len(x) + int(np.count_nonzero(x)))
+        if not ctx.want(cid):
+            continue
+        ctx.case(cid, key=cid)
+        xx = x * mag
+        okf, rf = call(f, xx.copy() * (4.0 if 'int' in tn else 1.0))
+        ok, r = call(f, cv(xx))
+        P = dict(mode='etype', etype=tn, mag=mag)
+        if not okf or rf is None:
+            continue
+        if not ok or r is None:
+            ctx.note('etype_refused', '%s(%s) -> %s' % (site, tn, type(r).__name__))
+            continue
+        r, rf = np.asarray(r, dtype=float), np.asarray(rf, dtype=float)
+        if r.shape != rf.shape or np.abs(r - rf).max() > T12:
+            ctx.fail(cid, site, 'mismatch', dict(P, law='unit/direction'), '%s of a %s value differs from the float64 copy by %.3g' % (site, tn, np.abs(r - rf).max() if r.shape == rf.shape else float('nan')))
+
+
 def shards(tier, seed):
     K = 4 if tier == 'quick' else 12
-    return [('m3', k, K) for k in range(K)] + [('m2', k, K) for k in range(K)] + [('vec',), ('twist',), ('angdiff',), ('multi',)]
+    return [('m3', k, K) for k in range(K)] + [('m2', k, K) for k in range(K)] + [('vec',), ('twist',), ('angdiff',), ('multi',), ('etype',)]
 
 
 def run_shard(ctx, shard):
@@ -433,6 +470,8 @@ def run_shard(ctx, shard):
         twist_cases(ctx)
     elif k == 'multi':
         multi_cases(ctx)
+    elif k == 'etype':
+        element_types(ctx)
     else:
         angdiff_cases(ctx)
         angdiff_forms(ctx)
